@@ -594,13 +594,15 @@ pub mod c20 {
         pub silence_ms: u64,
         /// with SplitAcrossRecords: the server stalls this long between the pieces of the middle PDU
         pub stall_inside_pdu_ms: u64,
+        /// half way through, the server deactivates the share and activates it again with the SAME share id
+        pub reactivate: bool,
         pub seed: u64,
     }
 
     impl Scenario {
         pub fn to_json(&self) -> Value {
             json!({"packing": format!("{:?}", self.packing), "n_pdus": self.n_pdus, "end": format!("{:?}", self.end), "point": format!("{:?}", self.point), "step": format!("{:?}", self.step),
-                   "tls12": self.tls12, "linger": self.linger, "input_writer": self.input_writer, "pauses": self.pauses, "end_in_same_record": self.end_in_same_record, "big": self.big, "silence_ms": self.silence_ms, "stall_inside_pdu_ms": self.stall_inside_pdu_ms, "seed": self.seed, "gen": self.gen_idx()})
+                   "tls12": self.tls12, "linger": self.linger, "input_writer": self.input_writer, "pauses": self.pauses, "end_in_same_record": self.end_in_same_record, "big": self.big, "silence_ms": self.silence_ms, "stall_inside_pdu_ms": self.stall_inside_pdu_ms, "reactivate": self.reactivate, "seed": self.seed, "gen": self.gen_idx()})
         }
         fn gen_idx(&self) -> Value {
             Value::Null
@@ -988,6 +990,41 @@ pub mod c20 {
             trace.push(format!("pdu{}", k));
             pause(&mut rng, sc.pauses);
         }
+        if sc.reactivate && end_after > 0 {
+            // deactivate-all, then a demand-active that re-uses the share id; the reference server answers the client's font
+            // list with the finalization by itself. The script goes on once the client is active again.
+            let (pr, sid, fl0) = {
+                let st = state.lock().unwrap();
+                (st.profile.clone(), st.next_share_id, st.events.iter().filter(|e| matches!(e.msg, rdpverif::refs::proto::ClientMsg::Share { msg: rdpverif::refs::proto::ShareMsg::FontList { .. }, .. })).count())
+            };
+            // the script itself sends the finalization this time, so that it cannot overtake or be overtaken by what follows
+            state.lock().unwrap().auto_finalize = false;
+            srv.write_raw(&srv.seal(&srv.frame(&proto::deactivate_all(&pr, sid), Wrap::Sdi)));
+            srv.write_raw(&srv.seal(&srv.frame(&proto::demand_active(&pr, sid), Wrap::Sdi)));
+            let t0 = Instant::now();
+            let mut back = false;
+            while t0.elapsed() < Duration::from_secs(5) {
+                let fl = state.lock().unwrap().events.iter().filter(|e| matches!(e.msg, rdpverif::refs::proto::ClientMsg::Share { msg: rdpverif::refs::proto::ShareMsg::FontList { .. }, .. })).count();
+                if fl > fl0 {
+                    back = true;
+                    break;
+                }
+                if handle.is_finished() {
+                    break;
+                }
+                std::thread::sleep(Duration::from_micros(300));
+            }
+            trace.push(if back { "reactivated".into() } else { "no-font-list-after-reactivation".into() });
+            for b in [proto::synchronize(&pr, sid, pr.user_id), proto::control(&pr, sid, 4, 0, 0), proto::control(&pr, sid, 2, pr.user_id, pr.server_channel as u32), proto::font_map(&pr, sid)].iter() {
+                srv.write_raw(&srv.seal(&srv.frame(b, Wrap::Sdi)));
+            }
+            // two more PDUs in the new activation
+            for j in 0..2 {
+                let (f, st) = bitmap_pdu(&srv, 700 + j, sc.big);
+                srv.write_raw(&srv.seal(&f));
+                expected.extend(st);
+            }
+        }
         // placement of the end event relative to the thread's cycle
         let p = Profile::default();
         let end_bytes: Option<Vec<u8>> = match sc.end {
@@ -1255,7 +1292,7 @@ pub mod c20 {
                 let point = points[(k % 4) as usize];
                 k /= 4;
                 let step = steps[(k % 3) as usize];
-                Scenario { packing, n_pdus: 6, end, point, step, tls12: r.chance(2, 3), linger: r.chance(1, 2), input_writer: r.chance(1, 2), pauses: r.chance(1, 2), end_in_same_record: r.chance(1, 5), big: r.below(3) as u8, silence_ms: 0, stall_inside_pdu_ms: 0, seed: seed ^ idx }
+                Scenario { packing, n_pdus: 6, end, point, step, tls12: r.chance(2, 3), linger: r.chance(1, 2), input_writer: r.chance(1, 2), pauses: r.chance(1, 2), end_in_same_record: r.chance(1, 5), big: r.below(3) as u8, silence_ms: 0, stall_inside_pdu_ms: 0, reactivate: false, seed: seed ^ idx }
             }
             2 => {
                 // a live session in which the server says nothing for a while, then goes on
@@ -1275,6 +1312,7 @@ pub mod c20 {
                     // odd scenarios (PDUs split across records) stall inside a PDU instead of between PDUs
                     silence_ms: if idx % 2 == 0 { silences[(idx as usize / 3) % silences.len()] } else { 0 },
                     stall_inside_pdu_ms: if idx % 2 == 1 { [3_500u64, 6_000, 11_000, 31_000][(idx as usize / 3) % 4] } else { 0 },
+                    reactivate: false,
                     seed: seed ^ idx ^ 0x5151,
                 }
             }
@@ -1292,6 +1330,7 @@ pub mod c20 {
                 big: r.below(3) as u8,
                 silence_ms: 0,
                 stall_inside_pdu_ms: 0,
+                reactivate: r.chance(1, 4),
                 seed: seed.wrapping_mul(31) ^ idx,
             },
         }
